@@ -202,7 +202,8 @@ VerticalIdentityV(F, E) == E.vert <=> F.enc = "Identity-V"
 \* the text ends: span width (micrometres) = (sum over the span's shown codes of W - TJ, in 1/1000 em) x Tf size.
 \* pen: per span the sum of (W - TJ) [(TJ - w1) for vertical glyphs] accumulated by Trace_FontEmbed over the GET events
 \* spans: <<[w, sum, um (span width in um), size (face size in um), tf (Tf operand in um), n (glyphs),
-\*           chk (horizontal, unrotated span whose text matrix could be read), tm, pm, sh, fox, foy]>>
+\*           chk (horizontal, unrotated span whose text matrix could be read), tm, pm, sh, fox, foy,
+\*           pchk (pm recorded), vm (view matrix), wx, wy (WalkSpans origin, um), rot (degrees)]>>
 PenOf(F, E) == IF E.vert THEN E.adj - F.w1 ELSE WidthOf(F, E.code) - E.adj
 SpanAgreeDiag(D, pen) ==
   UNION {    (IF Abs(D.spans[i].tf - D.spans[i].size) <= 1 THEN {} ELSE {"pdf-font-size-differs-from-face-size"})
@@ -228,6 +229,23 @@ SpanPlacedDiag(D) ==
                          p[6] + (p[2] * D.spans[i].fox + p[4] * D.spans[i].foy) \div K>>
               IN  (IF \A k \in 1..4 : Abs(t[k] - ex[k]) <= 3 THEN {} ELSE {"pdf-text-matrix-differs-from-path-rendering"})
              \cup (IF \A k \in 5..6 : Abs(t[k] - ex[k]) <= 3 THEN {} ELSE {"pdf-span-origin-differs-from-path-rendering"})
+         : i \in 1..Len(D.spans)}
+\* Path rendering against the layout: Text.RenderAsPath must draw a span's glyph path under  view . Translate(origin) .
+\* Rotate(rot)  where origin is the span origin Text.WalkSpans reports (without the face offset, which the glyph path carries)
+\* and rot the span's rotation (Latin text set sideways in a vertical writing mode: -90 degrees) - the span turns about its
+\* own origin.  Exact for multiples of 90 degrees; other angles are not constrained.
+Cos(r) == CASE r = 0 -> K [] r \in {90, -270} -> 0 [] r \in {180, -180} -> 0 - K [] r \in {-90, 270} -> 0 [] OTHER -> 0
+Sin(r) == CASE r = 0 -> 0 [] r \in {90, -270} -> K [] r \in {180, -180} -> 0 [] r \in {-90, 270} -> 0 - K [] OTHER -> 0
+RightAngle(r) == r \in {0, 90, -90, 180, -180, 270, -270}
+MMul(p, q) == <<(p[1] * q[1] + p[3] * q[2]) \div K, (p[2] * q[1] + p[4] * q[2]) \div K,     \* linear parts in 1/K
+                (p[1] * q[3] + p[3] * q[4]) \div K, (p[2] * q[3] + p[4] * q[4]) \div K,
+                (p[1] * q[5] + p[3] * q[6]) \div K + p[5], (p[2] * q[5] + p[4] * q[6]) \div K + p[6]>>
+PathPlacedDiag(D) ==
+  UNION {IF ~D.spans[i].pchk \/ ~RightAngle(D.spans[i].rot) THEN {}
+         ELSE LET sp == D.spans[i]
+                  ex == MMul(sp.vm, <<Cos(sp.rot), Sin(sp.rot), 0 - Sin(sp.rot), Cos(sp.rot), sp.wx - sp.fox, sp.wy - sp.foy>>)
+              IN IF \A k \in 1..6 : Abs(sp.pm[k] - ex[k]) <= 3 THEN {}
+                 ELSE IF sp.rot = 0 THEN {"path-rendering-span-misplaced"} ELSE {"path-rendering-rotated-span-misplaced"}
          : i \in 1..Len(D.spans)}
 DocDiag(D) ==
      UNION {IF RangesWellFormed(D.fonts[i]) THEN {} ELSE {"tounicode-range-crosses-byte"} : i \in 1..Len(D.fonts)}
